@@ -673,6 +673,11 @@ fn dims_strategy(p: usize, tier: Tier) -> BoxedStrategy<(usize, usize)> {
         let target = 100 * p + ((f as usize * 100 * p) >> 16);
         (w, (target / w).max(1))
     });
+    // a wide backing image just tall enough that a narrow column window SPANS more than 200*p
+    // backing pixels although the window itself holds far fewer than 100*p (the sampling rule
+    // is about the view's own area)
+    let wide = (64usize..=400, 1usize..=6).prop_map(move |(w, dh)| (w, t / w + dh));
+    let wide_weight = if p <= 64 { 2 } else { 0 };
     let big_weight = match (tier, t > 4096) {
         (_, false) => 2,
         (Tier::Quick, true) => if t > 60_000 { 0 } else { 1 },
@@ -681,9 +686,9 @@ fn dims_strategy(p: usize, tier: Tier) -> BoxedStrategy<(usize, usize)> {
     if big_weight == 0 {
         small.boxed()
     } else if t > 4096 {
-        prop_oneof![40 => small, big_weight => boundary, big_weight => window].boxed()
+        prop_oneof![40 => small, big_weight => boundary, big_weight => window, wide_weight => wide].boxed()
     } else {
-        prop_oneof![8 => small, big_weight => boundary, big_weight => window].boxed()
+        prop_oneof![8 => small, big_weight => boundary, big_weight => window, wide_weight => wide].boxed()
     }
 }
 
@@ -728,12 +733,16 @@ fn image_strategy(tier: Tier) -> BoxedStrategy<ImageCase> {
                 1 => Just(vec![255u8; pool_len]),
                 1 => vec(alpha_strategy(), pool_len),
             ];
+            // narrow column window over all rows of a wide backing image
+            let narrow_weight = if w >= 64 { 12 } else { 0 };
             let crop = prop_oneof![
                 7 => Just(None),
                 3 => (0..h, 0..w).prop_flat_map(move |(r0, c0)| {
                     ((r0 + 1)..=h, (c0 + 1)..=w)
                         .prop_map(move |(r1, c1)| Some([r0, r1, c0, c1]))
                 }),
+                narrow_weight => (0..w.saturating_sub(4).max(1), 1usize..=4, 0usize..=1)
+                    .prop_map(move |(c0, cw, r0)| Some([r0.min(h - 1), h, c0, (c0 + cw).min(w)])),
             ];
             (
                 rgb_set(pool_len),
@@ -1007,7 +1016,7 @@ impl Property for C13 {
     }
 
     fn rule(&self) -> String {
-        "three sub-cases (weights 10:3:3). IMAGE: requested size from {1,2,7,8,9,16,255,256,1000} (plus 1..=1200 at low weight); view 1x1..48x48 or an area on the sampling threshold 200*requested (-1 row / exact / +1 row; up to ~200k px in thorough); pixels = pool[layout(i)], pool of 1..=4096 RGBA colours drawn from {uniform, clustered in the low 1-4 bits, multi-cluster, single-axis collinear, lattice levels, few colours} with optional exact duplicates, pool length chosen relative to the requested size (<= requested, = requested, requested+1, many, = area); alpha all-opaque or mixed {255,0,any,254,1}; background none/opaque/translucent/alpha 0; 30% cropped views of a larger backing image; dithering on/off. LOOKUP: palette of 1..=512 opaque colours from the same models (duplicates, collinear, clustered, lattice), queries = up to 192 uniform 24-bit + up to 192 near a member (+-3 / +-40 per channel) + (75%) every member and its 8 neighbours at +-1 (each axis and the diagonal). OCTREE: 1..=1500 colours from the same models, prune_until(n) with n as above, then (25%) 1..=64 more insertions and a second prune_until. SWEEP: every one of the 2^24 query colours against fixed palettes (quick: ANSI 16; thorough: + xterm-256, single, two identical, grey ramp x2 (512), 8x8x8 block (512), 4x4x4 lattice x2, and 4 generated palettes of 3/64/255/512 colours). \
+        "three sub-cases (weights 10:3:3). IMAGE: requested size from {1,2,7,8,9,16,255,256,1000} (plus 1..=1200 at low weight); view 1x1..48x48 or an area on the sampling threshold 200*requested (-1 row / exact / +1 row; up to ~200k px in thorough); pixels = pool[layout(i)], pool of 1..=4096 RGBA colours drawn from {uniform, clustered in the low 1-4 bits, multi-cluster, single-axis collinear, lattice levels, few colours} with optional exact duplicates, pool length chosen relative to the requested size (<= requested, = requested, requested+1, many, = area); alpha all-opaque or mixed {255,0,any,254,1}; background none/opaque/translucent/alpha 0; 30% cropped views of a larger backing image, among them narrow column windows (1-4 columns, all rows) of a wide backing image (64-400 columns) whose span in the backing buffer exceeds the sampling threshold while their own area is far below it; dithering on/off. LOOKUP: palette of 1..=512 opaque colours from the same models (duplicates, collinear, clustered, lattice), queries = up to 192 uniform 24-bit + up to 192 near a member (+-3 / +-40 per channel) + (75%) every member and its 8 neighbours at +-1 (each axis and the diagonal). OCTREE: 1..=1500 colours from the same models, prune_until(n) with n as above, then (25%) 1..=64 more insertions and a second prune_until. SWEEP: every one of the 2^24 query colours against fixed palettes (quick: ANSI 16; thorough: + xterm-256, single, two identical, grey ramp x2 (512), 8x8x8 block (512), 4x4x4 lattice x2, and 4 generated palettes of 3/64/255/512 colours). \
          non-trivial = image: more distinct composited colours than palette entries (quantisation is lossy); lookup: palette has >= 2 entries; octree: more distinct colours than max(n,8) (pruning happens)".into()
     }
 
